@@ -26,6 +26,13 @@ def toksJ (t : Str) : Json :=
   obj [("rule", strs (Spec.nameTokens t)), ("closed", Json.bool (Spec.groupsClosed t)),
        ("model", strs (splitTex .space t))]
 
+/-- the case of every token by the SCANNER-FREE rule of bibtex.web (`Spec.tokenCaseBibtex`): pairs
+(token, is lower-case), for the tokens (`Spec.nameTokens`, the tokeniser stated from the property
+text) of every brace-level-0 comma part of the stripped name -/
+def caseBibtexJ (s : Str) : Json :=
+  arr (((Spec.nameCommaParts (strip s)).map Spec.nameTokens).flatten.map fun t =>
+    arr [strToJson t, Json.bool (decide (Spec.tokenCaseBibtex t = .lower))])
+
 def specPersonJ (s : Str) : Json :=
   if strip s = [] then personJ {} else personJ (Spec.split (strip s)).1
 
@@ -41,6 +48,7 @@ def person (j : Json) : Except String Json := do
                            ("tokens", strs tokens), ("comma_parts", strs parts),
                            ("part_tokens", arr ((regroup parts).map fun p => strs (splitTex .space p))),
                            ("closed", Json.bool (Spec.groupsClosed (strip s))),
+                           ("case_bibtex", caseBibtexJ s),
                            ("rule_tokens", strs (Spec.nameTokens (strip s))),
                            ("rule_comma_parts", strs (Spec.nameCommaParts (strip s))),
                            ("rule_part_tokens", arr ((regroup (Spec.nameCommaParts (strip s))).map fun p => strs (Spec.nameTokens p)))])])
